@@ -72,7 +72,7 @@ def emit_unit(ast_path, spec_path, outdir):
 
 PROBE = 'Y_VACUITY_PROBE'
 
-def run_job(cpath, job, outdir, tier='quick'):
+def _run_job_uncached(cpath, job, outdir, tier='quick'):
     """returns dict(job, status in {ok, failed, error, timeout}, obligations:[{name,desc,status,loc}], probes_ok, seconds, cmds)"""
     name = job['name']; log = os.path.join(outdir, name + '.log')
     open(log, 'w').close()
@@ -163,6 +163,43 @@ def run_job(cpath, job, outdir, tier='quick'):
     elif job.get('probe', '1') != '0' and not res['probes_ok']:
         res['status'] = 'error'; res['detail'] = 'vacuity probe did not fail (precondition unsatisfiable or exit unreachable) or is missing'
     else: res['status'] = 'ok'
+    return res
+
+CACHE = os.path.join(WORK, 'cache')
+_TOOLV = None
+def _tool_version():
+    global _TOOLV
+    if _TOOLV is None:
+        try: _TOOLV = subprocess.run(['cbmc', '--version'], capture_output=True, text=True).stdout.strip()
+        except Exception: _TOOLV = '?'
+    return _TOOLV
+
+def run_job(cpath, job, outdir, tier='quick'):
+    """memoised: the verdict of a job is a function of (emitted unit text, stub side table, job definition, stub/stub-generator
+    sources, tool version). The unit is re-extracted from /repo on every run; only when that text is byte-identical to an earlier
+    run is the solver's answer reused (decided results only - never timeouts or tool errors). Y_NO_CACHE=1 disables it."""
+    if os.environ.get('Y_NO_CACHE') == '1': return _run_job_uncached(cpath, job, outdir, tier)
+    h = hashlib.sha256()
+    h.update(open(cpath, 'rb').read())
+    side = cpath + '.stubs.json'
+    if os.path.exists(side): h.update(open(side, 'rb').read())
+    h.update(json.dumps({k: v for k, v in sorted(job.items()) if k not in ('props', 'tier', 'cost', 'wip')}).encode())
+    for f in ('ystub_pre.h', 'ystub_post.h', 'ystubgen.py', 'yrun.py'):
+        h.update(open(os.path.join(TOOLS, f), 'rb').read())
+    h.update(_tool_version().encode()); h.update(os.environ.get('Y_TIMEOUT', '').encode())
+    key = h.hexdigest()[:32]; cp = os.path.join(CACHE, key + '.json')
+    if os.path.exists(cp):
+        try:
+            res = json.load(open(cp)); res['cached'] = True; res['props'] = job.get('props', '').split(',')
+            res['note'] = (res.get('note', '') + ' result reused: emitted unit, job and tools byte-identical to the run that produced it').strip()
+            return res
+        except Exception: pass
+    res = _run_job_uncached(cpath, job, outdir, tier)
+    if res.get('status') in ('ok', 'failed'):
+        try:
+            os.makedirs(CACHE, exist_ok=True)
+            tmp = cp + '.%d.tmp' % os.getpid(); json.dump(res, open(tmp, 'w')); os.replace(tmp, cp)
+        except Exception: pass
     return res
 
 def summarize_trace(trace):
